@@ -1118,6 +1118,17 @@ def corpus():
         Struct('Renamed', [F(1, 'x', 'i32')], rust='NewName', ann={'pilota.name': 'NewName'}),
     ], style=1))
 
+    # ---- arcl: pilota.rust_wrapper_arc around types that own no heap themselves (C19: an Arc is an allocation whatever it wraps):
+    # lists of structs whose only Drop obligation is an Arc member, and Vec<Arc<scalar-only struct>> inside a field
+    docs.append(Doc('arcl', [
+        Struct('Pt', [F(1, 'x', 'i32', 'required'), F(2, 'y', 'i64')]),
+        Struct('ArcEl', [F(1, 'p', R('Pt'), 'required', rust_wrapper_arc='true'), F(2, 'n', 'i32')]),
+        Struct('ArcHolder', [F(1, 'els', L(R('ArcEl'))), F(2, 'after', 'i32', 'required')]),
+        Struct('ArcIn', [F(1, 'lp', L(R('Pt')), rust_wrapper_arc='true'), F(2, 'after', 'i32', 'required')]),
+        Struct('ArcMapIn', [F(1, 'm', M('i32', L(R('Pt'))), rust_wrapper_arc='true'), F(2, 'after', 'i32', 'required')]),
+        Struct('PlainHolder', [F(1, 'els', L(R('Pt'))), F(2, 'after', 'i32', 'required')]),
+    ], style=1))
+
     # ---- svc: a service -> synthesised Args/Result/Exception types; Req is an argument type that is also nested
     docs.append(Doc('svc', [
         Struct('Req', [F(1, 'id', 'i64', 'required'), F(2, 'tags', L('string')), F(3, 'pt', R('inc.Pt'), 'optional')]),
